@@ -261,9 +261,24 @@ def class_parts(cls):
     return fam, (p[1] if len(p) > 2 else None), n, two
 
 
-# shapes of class `deep` that are not recursive in the grammar the parser accepts (it fails at the second level):
-# they must still give a diagnostic, but not necessarily "Nesting too deep"
-NOT_RECURSIVE = {"external_name", "package", "record"}
+# Expectations for class `deep`, derived from the unchanged tree (repo 892ddea) and pinned:
+# beyond the nesting limit every shape must give a `Nesting too deep` diagnostic, except the shapes the parser
+# rejects at the second level already (not recursive in the grammar it accepts) ...
+NOT_RECURSIVE = {"external_name", "package", "record", "string_index", "bitstring_paren", "literal_paren", "null_paren",
+                 "char_prefix", "allocator_constraint", "conditional_in_paren", "record_constraint_2",
+                 "subprogram_package_body", "when_else_call"}
+# ... and the unclosed form of these (the statement fails before the nested actual is reached again)
+NOT_RECURSIVE_UNCLOSED = {"generic_map_call", "port_map_conversion"}
+# closed forms that are valid VHDL: at depths <= 256 they parse to one unit without any diagnostic
+CLEAN_SHAPES = {
+    "paren", "if", "loop", "while", "call", "aggregate", "qualified", "block", "if_generate", "for_generate", "case_generate",
+    "case", "not", "minus", "subprogram_body", "function_body", "protected_body", "constraint", "array_constraint",
+    "resolution", "block_configuration", "component_configuration", "process_if",
+    "op_call", "op_call_and", "attribute_parameter", "call_then_index", "named_association", "choice_bar", "choice_named",
+    "selected_call", "waveform_call", "target_aggregate", "external_in_call", "generic_subprogram", "interface_default",
+    "elsif_generate", "else_generate", "case_generate_2", "record_constraint", "record_constraint_2", "resolution_2",
+    "resolution_record", "range_call", "case_choice_call", "procedure_call", "generic_map_call", "port_map_conversion",
+    "assert_report", "physical_call"}
 
 
 def loop_case(o):
@@ -546,11 +561,19 @@ def oracle_stage(res, hbin, mbin, cases_path, tag, stats, kf_entries, kf_hits, l
         fam, shape, depth, two = class_parts(cls)
         ckey = fam + ("@2m" if two else "")
         stats["classes"][ckey] = stats["classes"].get(ckey, 0) + 1
+        closed = cls.replace("@2m", "").endswith("/c")
+        if fam == "deep" and st == "ok" and depth is not None and depth <= 256 and closed and shape in CLEAN_SHAPES:
+            if o.get("nd", 0) != 0 or len(o.get("units", [])) != 1:
+                o.setdefault("viol", []).append(
+                    "nesting depth %d of shape `%s` (valid VHDL below the nesting limit) gives %d diagnostics and %d units, "
+                    "expected 0 and 1" % (depth, shape, o.get("nd", 0), len(o.get("units", []))))
         if fam == "deep" and st == "ok" and depth is not None and depth > 256:
             # regression of F41: beyond the nesting limit the parser reports instead of recursing
-            if o.get("nd", 0) < 1 or (shape not in NOT_RECURSIVE and o.get("ntd", 0) < 1):
+            need_ntd = shape not in NOT_RECURSIVE and not (shape in NOT_RECURSIVE_UNCLOSED and not closed)
+            if o.get("nd", 0) < 1 or (need_ntd and o.get("ntd", 0) < 1):
                 o.setdefault("viol", []).append(
-                    "nesting depth %d of shape `%s`: %d diagnostics, %d of them `Nesting too deep` (expected at least one)"
+                    "nesting depth %d of shape `%s`: %d diagnostics, %d of them `Nesting too deep` (expected at least one): "
+                    "a cycle of parse functions bypasses ParsingContext::nested"
                     % (depth, shape, o.get("nd", 0), o.get("ntd", 0)))
             stats["deep_beyond_limit"] = stats.get("deep_beyond_limit", 0) + 1
         stats["outcomes"][st] = stats["outcomes"].get(st, 0) + 1
@@ -818,7 +841,8 @@ def main(tier, replay=None):
         "items x 18 failing unit heads that stop at the next keyword x more items x a second failing head x 9 good units with "
         "the closing `;` kept, typed as `:` or missing x 5 trailers; sampled 1/6 in quick); every top-level catalogue entry "
         "ending in `:`; nesting depths 50/200/600/5000/20000/100000 of 28 "
-        "nesting shapes, closed and unclosed, each on the main thread and on a 2 MiB-stack thread (beyond depth 256: a "
+        "nesting shapes plus 44 further shapes (every way a primary, name, choice, association, constraint, resolution "
+        "indication, interface list or generate alternative can contain itself) at 50/200/5000/100000, closed and unclosed, each on the main thread and on a 2 MiB-stack thread (beyond depth 256: a "
         "`Nesting too deep` diagnostic is required); iterative chains (9 shapes) and unclosed nested interface subprograms at safe "
         "lengths, at the lengths of the open findings F53/F54 only while these are listed in known_findings.json; exhaustively every sequence of <= 3 (thorough: 4) "
         "tokens over a 14-word alphabet. "
